@@ -77,6 +77,22 @@ pub const POOL: &[PoolEntry] = &[
     pe!("(function_definition) @{d}", [("d", "function_definition")], Some("function_definition")),
     pe!("(expression_statement) @{s}", [("s", "expression_statement")], Some("expression_statement")),
     pe!("(argument_list) @{al}", [("al", "argument_list")], Some("argument_list")),
+    // a root quantified with `+`: one match may hold several sibling roots
+    pe!("(pass_statement)+ @{ps}", [("ps", "pass_statement")], None),
+    pe!("(expression_statement)+ @{es}", [("es", "expression_statement")], None),
+    // a bare wildcard at the start of the query text; stanzas without any capture
+    pe!("_ @{tok}", [("tok", "*")], None),
+    pe!("(pass_statement)", [], None),
+    pe!("(module)", [], None),
+    // a capture on a group whose head is optional: tree-sitter hands out two nodes for it when
+    // the head is present (the value is the node that starts the group)
+    pe!("((comment)? @{c} (function_definition) @{f}) @{grp}", [("c", "comment"), ("f", "function_definition"), ("grp", "*")], None),
+    pe!("(module ((comment)? @{c} . (pass_statement) @{p})? @{g})", [("c", "comment"), ("p", "pass_statement"), ("g", "*")], None),
+    // list captures whose nodes are interleaved with those of another capture
+    pe!("(module ((comment) @{c} (pass_statement) @{p})*)", [("c", "comment"), ("p", "pass_statement")], None),
+    pe!("(module [(expression_statement) @{e} (pass_statement) @{p}]+)", [("e", "expression_statement"), ("p", "pass_statement")], None),
+    pe!("(assignment left: (identifier) @{side} type: (type) @{t} right: (_) @{side})", [("side", "*"), ("t", "type")], None),
+    pe!("(block [(expression_statement) @{e} (return_statement) @{r} (pass_statement) @{p}]*) @{b}", [("e", "expression_statement"), ("r", "return_statement"), ("p", "pass_statement"), ("b", "block")], None),
 ];
 
 /// Patterns of the D7 class (root with three user captures, quantified root).
